@@ -399,10 +399,7 @@ def recheck(r):
     if r.get('stream') == 'audit' and 'case' in r:
         variant = (r['covers'], r.get('via', 'global')) if r.get('covers') in ('full', 'fullT', 'hand') and 'via' in r else None
         audit_case(ctx, random.Random(0), r['case'], r['form'], [r['settings']], variant=variant)
-    for what, _, tags in ctx.violations:
-        if not [t for t in tags if t]:
-            return what
-    return None
+    return ctx.first('C19')
 
 
 def replay(obj):
